@@ -330,7 +330,31 @@ def replay(path):
         shutil.rmtree(workdir, ignore_errors=True)
 
 
+def supervise(argv):
+    """Run the check in a child interpreter: if jitted library code corrupts memory and kills it, that is reported as a
+    violation (the property is no longer shown to hold) instead of a silent crash."""
+    import subprocess
+    t0 = time.time()
+    p = subprocess.run([sys.executable, str(Path(__file__).resolve())] + argv, env=dict(os.environ, VERIF_CHILD='1'))
+    if p.returncode in (0, 1, 2):
+        return p.returncode
+    prop_id = argv[0]
+    tier = argv[1] if len(argv) > 1 else os.environ.get('VERIF_TIER', 'quick')
+    seed = int(os.environ.get('VERIF_SEED', DEFAULT_SEED))
+    what = f'the check process died (exit status {p.returncode}) while exercising the implementation: memory corruption or abort inside library code'
+    path = core.write_replay(prop_id, {'property': prop_id, 'no_failing_input_found': True, 'broken': what,
+                                       'detail': 'correspondence run of tools/props/' + prop_id + '.py did not complete', 'searched': {}})
+    ev = {'property_id': prop_id, 'tier': tier, 'seed': seed, 'level': 'other', 'coverage': {'explanation': what}, 'assumptions': [],
+          'wall_s': round(time.time() - t0, 2), 'violations': 1}
+    core.EVIDENCE.mkdir(parents=True, exist_ok=True)
+    (core.EVIDENCE / f'{prop_id}.json').write_text(json.dumps(ev, indent=1))
+    print(f'VIOLATION property={prop_id} replay={path} no-failing-input-found')
+    return 1
+
+
 def main(argv):
+    if len(argv) >= 1 and argv[0] != '--replay' and os.environ.get('VERIF_CHILD') != '1':
+        return supervise(argv)
     if len(argv) >= 2 and argv[0] == '--replay':
         return replay(argv[1])
     if len(argv) < 1:
